@@ -438,6 +438,7 @@ class HamiltonianChain(MarkovChain):
         items = {
             "inv_mass": self.mass.inv_mass,
             "inv_temp": self.inv_temp,
+            "temperature": float(self.temperature),
             "theta": self.theta,
             "probs": self.probs,
             "leapfrog_steps": self.leapfrog_steps,
@@ -489,7 +490,12 @@ class HamiltonianChain(MarkovChain):
             n_parameters=int(D["n_parameters"]),
         )
 
-        chain.temperature = 1.0 / chain.inv_temp
+        # (the temperature as it was given: 1 / (1 / T) differs from T in the last bit for
+        # one T in seven; files written before it was stored only have its inverse)
+        if "temperature" in D:
+            chain.temperature = float(D["temperature"])
+        else:
+            chain.temperature = 1.0 / chain.inv_temp
         chain.probs = list(D["probs"])
         chain.leapfrog_steps = list(D["leapfrog_steps"])
         chain.n_parameters = int(D["n_parameters"])
